@@ -337,3 +337,19 @@ Example C02_hier_exact_any_field_refuted :
             is_qualified (Hier [(1%nat, [1%N]); (3%nat, [4%N; 5%N])]) [1%N; 4%N] = false /\
             accepts K7 m [1%N; 4%N] = true.
 Proof. eexists. split; [vm_compute; reflexivity|]. split; vm_compute; reflexivity. Qed.
+
+(* the hypotheses of the Tassa theorems are satisfiable: two levels over Z_7, dealer polynomial 5 + 3X
+   (field elements compared through their representatives) *)
+Example C02_tassa_nonvacuous :
+  let levels := [(1%nat, [1%N; 2%N]); (2%nat, [3%N; 4%N])] in
+  let cs := [fromN7 5; fromN7 3] in
+  (exists m, induced_hier K7 fromN7 (2^256) levels = Some m /\
+             accepts K7 m [3%N; 1%N] = true /\ accepts K7 m [3%N; 4%N] = false /\
+             map zp_val (snd (share_of K7 m (mvec K7 (msp_M m) cs) 3%N)) = [3%Z]) /\
+  map (fun s => (fst s, zp_val (snd s))) (tassa_deal K7 fromN7 levels cs) = [(1%N, 1%Z); (2%N, 4%Z); (3%N, 3%Z); (4%N, 3%Z)] /\
+  option_map zp_val (tassa_reconstruct K7 fromN7 (fun a => zp_val a) levels [(3%N, fromN7 3); (1%N, fromN7 1)]) = Some 5%Z /\
+  tassa_reconstruct K7 fromN7 (fun a => zp_val a) levels [(3%N, fromN7 3); (4%N, fromN7 3)] = None.
+Proof.
+  cbv zeta. split; [eexists; split; [vm_compute; reflexivity|]; repeat split; vm_compute; reflexivity|].
+  repeat split; vm_compute; reflexivity.
+Qed.
